@@ -974,6 +974,13 @@ def c08_family(tier, rnd):
              Text("[", pipe(var("x"), const(S("u0"))), ",", pipe(var("y"), const(S("u0"))), "]"), CLOSE,
              Text("post", pipe(var("x"), const(S("u0"))), pipe(var("y"), const(S("u0"))))]
     progs.append(program(items, al.dom, init={"y": S("c")}, fam="C08:unpack"))
+    # (e0) the repeated element stands on the FIRST line of the template (an indented fragment): its indentation counts
+    for lead in ("", "    ", "\t", "  \t "):
+        for tag in ("el", "ns"):
+            al = Alloc(tier)
+            items = ([Text(lead)] if lead else []) + [Open(tag=tag, rep=(False, "x", al.call("repeat", [RANGE(3), RANGE(1), RANGE(0)])), sattr=[]),
+                                                    Text("k", var("x")), CLOSE, Text("\npost")]
+            progs.append(program(items, al.dom, fam="C08:firstline:%r:%s" % (lead, tag)))
     # (e) placements of the repeated element relative to the preceding text
     for tail in ["\n", "\n  ", "\n\t", "\n \t ", "x\n    ", "\n  text", "text", "\n\n  "]:
         for tag in ("el", "ns"):
